@@ -45,8 +45,14 @@ func hardFor(c *Case) time.Duration {
 
 // softFor: tiny token-sequence programs that still run after 400 ms are loops
 func softFor(c *Case) time.Duration {
-	if (c.Fam == "src" && c.Rep == 0) || (c.Fam == "text" && !c.Patient) {
+	if c.Patient {
+		return 10000
+	}
+	if (c.Fam == "src" && c.Rep == 0) || c.Fam == "text" {
 		return 400
+	}
+	if c.Fam == "src" && c.Rep > 0 {
+		return 8000
 	}
 	if c.Fam == "rec" && c.D > 1000 {
 		return 8000
